@@ -103,13 +103,20 @@ class C23(Monitor):
 
     def _headers_with_priority(self, w, s, e):
         """priority fields of a HEADERS frame (whatever the number of CONTINUATION frames behind it)"""
-        if not s.exact or s.quirk or not s.ok:
+        if not s.exact or s.quirk:
             return
         u = s.units[0]
         if u.type != C.HEADERS or u.prio is None or u.bad is not None:
             return
         dep, excl, wt = u.prio
         if dep == u.sid:
+            # a stream that depends on itself (RFC 7540 5.3.1): an error, also when the fields ride on HEADERS
+            self.probe('headers_self_dependency')
+            self.nontrivial = True
+            if s.ok and any(g['t'] in self.HDR_EVENTS and g.get('stream_id') == u.sid for g in s.events):
+                self.fail('self-dependency-accepted', 'HEADERS whose priority fields make the stream depend on itself was delivered', s)
+            return
+        if not s.ok:
             return
         hdr = [(i, g) for i, g in enumerate(s.events) if g['t'] in self.HDR_EVENTS and g.get('stream_id') == u.sid]
         if not hdr:
